@@ -64,6 +64,8 @@ class Registry:
         self.contracts = {}
         self.specs = {}
         self.lemmas = {}
+        self.sql = {}
+        self.tables = {}     # ghost database: table -> row type of the rows a step inserts
         self.files = []
 
     def class_fields(self, cls_target):
@@ -90,6 +92,8 @@ class Registry:
             if isinstance(node, ast.Assign) and len(node.targets) == 1 and isinstance(node.targets[0], ast.Name):
                 try:
                     self._consts[node.targets[0].id] = ast.literal_eval(node.value)
+                    if node.targets[0].id == "TABLES":
+                        self.tables.update(self._consts["TABLES"])
                 except Exception:
                     pass
         for node in tree.body:
@@ -97,6 +101,17 @@ class Registry:
                 continue
             for dec in node.decorator_list:
                 dname = dec.func.id if isinstance(dec, ast.Call) and isinstance(dec.func, ast.Name) else (dec.id if isinstance(dec, ast.Name) else None)
+                if dname == "sql":
+                    c = self._parse_contract(None, node, path)
+                    text = ast.literal_eval(dec.args[0])
+                    opts = {}
+                    for k in dec.keywords:
+                        opts[k.arg] = k.value if k.arg in ("row", "rows_of") else ast.literal_eval(k.value)
+                    c.target = "sql:" + node.name
+                    c.sql_text = " ".join(text.split())
+                    c.options = opts
+                    self.sql[c.sql_text] = c
+                    continue
                 if dname == "spec":
                     self.specs[node.name] = SpecFunction(node.name, node, "spec")
                 elif dname == "contract":
